@@ -20,7 +20,7 @@ func c24(x *ctx) {
 	thorough := x.tier == "thorough"
 	r.Rule = "programs with a target method `helper`, every multiset of 1-2 (thorough: 3) call sites drawn from {statement, assignment rhs, if/elsif/unless/while condition, argument of another call, inside a block, inside a loop body} x enclosing {top level, top-level method, instance method of a class, class method}; " +
 		"`--llm-nav --target=helper` must list exactly one caller entry per call site with its row and enclosing method/class and `total callers` = number of sites; `--llm-nav --target=<caller>` must list only callees that are written in that method's body, one per written call. non-trivial = all"
-	ctxs := []string{"stmt", "assign", "if-cond", "elsif-cond", "unless-cond", "while-cond", "argument", "block", "loop-body", "nested-arg", "array-pair"}
+	ctxs := []string{"stmt", "assign", "if-cond", "elsif-cond", "unless-cond", "while-cond", "argument", "block", "loop-body", "nested-arg", "array-pair", "if-in-if-cond", "unless-in-unless-cond"}
 	encls := []string{"toplevel", "topmethod", "instmethod", "classmethod"}
 	var kinds []c24site
 	for _, c := range ctxs {
@@ -83,6 +83,11 @@ func c24(x *ctx) {
 			return []string{ind + "helper(helper(1))"}, 0, []string{"helper", "helper"}
 		case "array-pair":
 			return []string{ind + "v = [helper(1), helper(2)]"}, 0, []string{"helper", "helper"}
+		// a condition whose first operand holds another conditional of the same keyword (inside a block)
+		case "if-in-if-cond":
+			return []string{ind + "if [1, 2].all? { |q| helper(q) > 0 if q > 0 }", ind + "  w = 1", ind + "end"}, 0, []string{"helper"}
+		case "unless-in-unless-cond":
+			return []string{ind + "unless [1, 2].any? { |q| helper(q) > 5 unless q > 9 }", ind + "  w = 1", ind + "end"}, 0, []string{"helper"}
 		}
 		panic(ctx)
 	}
@@ -372,6 +377,10 @@ func siteKindAtRow(src, feat, key string) string {
 	}
 	ctx := "stmt"
 	switch {
+	case strings.HasPrefix(l, "if [1, 2].all?"):
+		ctx = "if-in-if-cond"
+	case strings.HasPrefix(l, "unless [1, 2].any?"):
+		ctx = "unless-in-unless-cond"
 	case strings.HasPrefix(l, "v = ["):
 		ctx = "array-pair"
 	case strings.HasPrefix(l, "helper(helper("):
